@@ -579,6 +579,11 @@ impl C10 {
                     if i < n {
                         // epsilon-insensitive optimality at training point i, judged with the reference expansion
                         let r = ys[i] - f;
+                        // f64: tol + rounding of the reference arithmetic. f32: the solver updates its gradients
+                        // incrementally in single precision; the drift it accumulates over the iterations is of the
+                        // order of 1e-3 of the target scale (measured: up to 0.5 at |y| ~ 1000, C = 100), far above
+                        // tol. The f32 runs therefore judge optimality only down to that level — a sharper f32 oracle
+                        // was tried and raised alarms on the unchanged tree (DESIGN 9.5).
                         let slack = tol_eff + if case.f32m { 1e-3 } else { 1e-9 } * (yscale + mag);
                         let aw = wrow[i].abs();
                         let (ok, what, excess) = if aw == 0.0 {
@@ -962,6 +967,12 @@ fn gen_case(batch: &str, index: u64, seed: u64) -> Case {
                 let lin: f64 = row.iter().zip(&coef).map(|(a, b)| a * b).sum();
                 yoff + (if nonlin { lin.sin() * 2.0 } else { lin }) + noise * r.gaussish()
             }).collect();
+            let mut y = y;
+            if pr.chance(0.15) {
+                // one outlier target far from the bulk (it ends up as a bounded support vector)
+                let at = pr.below(n as u64) as usize;
+                y[at] = *pr.pick(&[500.0, -5000.0, 5000.0, 250_000.0]);
+            }
             let kernel = gen_kernel(&mut pr, true, true);
             let nq = pr.usize_in(0, 5);
             let queries = (0..nq).map(|_| (0..p).map(|_| scale * r.range(-1.5, 1.5)).collect()).collect();
